@@ -84,3 +84,7 @@ mod tests {
         Ok(())
     }
 }
+
+#[cfg(kani)]
+#[path = "/verif/harness/cram/rans_4x8_encode.rs"]
+mod verif_kani;
